@@ -83,6 +83,8 @@ func dynKey(cc *ssa.CallCommon) string {
 	switch v := cc.Value.(type) {
 	case *ssa.UnOp:
 		switch a := v.X.(type) {
+		case *ssa.FreeVar:
+			return "freevar:" + a.Parent().Name() + "." + a.Name()
 		case *ssa.Global:
 			return "var:" + a.Pkg.Pkg.Path() + "." + a.Name()
 		case *ssa.FieldAddr:
@@ -138,6 +140,9 @@ func (p *Prog) trackedName(cc *ssa.CallCommon) string {
 	k := dynKey(cc)
 	if strings.HasPrefix(k, "param:") && p.CS.Tracked[k[len("param:"):]] {
 		return k[len("param:"):]
+	}
+	if strings.HasPrefix(k, "freevar:") && p.CS.Tracked[k[len("freevar:"):]] {
+		return k[len("freevar:"):]
 	}
 	if strings.HasPrefix(k, "var:") {
 		short := k[strings.LastIndex(k, ".")+1:]
